@@ -55,7 +55,7 @@ func genTxn(a hx.Args) {
 
 func genEos(a hx.Args) {
 	r := hx.NewRng(a.Seed)
-	n := a.N(30, 600)
+	n := a.N(60, 800)
 	for i := 0; i < n; i++ {
 		hx.Emit("eos %d %d %d %d %d %d %d", r.U64()%1000000, r.Intn(3), 2+r.Intn(4), 1+r.Intn(2), 2+r.Intn(3), 80+r.Intn(250), hx.Pick(r, []int{0, 5, 12}))
 	}
@@ -164,6 +164,34 @@ func txnFaults(net *sim.Net, cluster *kfake.Cluster, log *sim.Log, seed uint64, 
 				return resp, nil, true
 			}
 			return nil, nil, false
+		})
+	}
+	// TxnOffsetCommit answered with an abortable per-partition error (nothing is staged): End must not commit
+	if isKey(28) {
+		cluster.ControlKey(28, func(kreq kmsg.Request) (kmsg.Response, error, bool) {
+			cluster.KeepControl()
+			emu.Lock()
+			inject := on.Load() && faultpct > 0 && erng.Intn(100) < faultpct
+			code := hx.Pick(erng, []int16{kerr.RebalanceInProgress.Code, kerr.IllegalGeneration.Code, kerr.UnknownMemberID.Code, kerr.CoordinatorLoadInProgress.Code})
+			emu.Unlock()
+			r, ok := kreq.(*kmsg.TxnOffsetCommitRequest)
+			if !inject || !ok {
+				return nil, nil, false
+			}
+			log.Add("F:28:0:3")
+			hx.St.Inc(fmt.Sprintf("fault.errcode.key28.code%d", code))
+			resp := r.ResponseKind().(*kmsg.TxnOffsetCommitResponse)
+			for _, rt := range r.Topics {
+				st := kmsg.NewTxnOffsetCommitResponseTopic()
+				st.Topic = rt.Topic
+				for _, rp := range rt.Partitions {
+					sp := kmsg.NewTxnOffsetCommitResponseTopicPartition()
+					sp.Partition, sp.ErrorCode = rp.Partition, code
+					st.Partitions = append(st.Partitions, sp)
+				}
+				resp.Topics = append(resp.Topics, st)
+			}
+			return resp, nil, true
 		})
 	}
 }
